@@ -220,7 +220,7 @@ def run(ctx):
         for c, (t, _) in zip(cases, tags):
             if c[0] == 'rtureq' and c[1] == 'stop' and len(server_cases) < (500 if ctx.quick() else 5000):
                 server_cases.append((c[2], c[3]))
-    srv = ctx.harness('rtu_server', [' '.join([fin] + [(x.hex() if x else '-') for x in ch]) for fin, ch in server_cases], shards=8) if server_cases else []
+    srv = ctx.harness('server_session', [' '.join(['rtu', fin] + [(x.hex() if x else '-') for x in ch]) for fin, ch in server_cases], shards=8) if server_cases else []
     srv_results = fc.evaluate(ctx, [('rtureq', 'stop', fin, ch) for fin, ch in server_cases])
     replies, reply_src, bad_srv, n_silent = [], [], 0, 0
     for (fin, ch), line, (impl, model, spec, _) in zip(server_cases, srv, srv_results):
